@@ -165,6 +165,7 @@ func (j *Journal) SplitTree(r *rand.Rand, maxDepth, maxFanout int) map[string][]
 		dirs     []Dir
 		children []*node
 		depth    int
+		rel      string // include path as written in the parent, relative to the parent's directory
 	}
 	root := &node{path: "main.knut"}
 	nodes := []*node{root}
@@ -194,6 +195,18 @@ func (j *Journal) SplitTree(r *rand.Rand, maxDepth, maxFanout int) map[string][]
 			ext = ".prices"
 		}
 		ch := &node{path: fmt.Sprintf("%s%sf%d%s", dir, sub, i, ext), depth: p.depth + 1}
+		ch.rel = strings.TrimPrefix(ch.path, dir)
+		if dir != "" && r.Intn(4) == 0 {
+			// a file in a sibling directory of the parent's, reached through ".."
+			up := strings.TrimSuffix(dir, "/")
+			upDir := ""
+			if k := strings.LastIndex(up, "/"); k >= 0 {
+				upDir = up[:k+1]
+			}
+			name := fmt.Sprintf("s%d/f%d%s", i, i, ext)
+			ch.path = upDir + name
+			ch.rel = "../" + name
+		}
 		p.children = append(p.children, ch)
 		nodes = append(nodes, ch)
 	}
@@ -204,10 +217,6 @@ func (j *Journal) SplitTree(r *rand.Rand, maxDepth, maxFanout int) map[string][]
 	files := map[string][]byte{}
 	for _, n := range nodes {
 		var b strings.Builder
-		dir := ""
-		if k := strings.LastIndex(n.path, "/"); k >= 0 {
-			dir = n.path[:k+1]
-		}
 		// includes interleaved at random positions
 		type item struct {
 			text string
@@ -217,7 +226,7 @@ func (j *Journal) SplitTree(r *rand.Rand, maxDepth, maxFanout int) map[string][]
 			items = append(items, item{RenderDir(d)})
 		}
 		for _, ch := range n.children {
-			rel := strings.TrimPrefix(ch.path, dir)
+			rel := ch.rel
 			switch r.Intn(4) {
 			case 0:
 				rel = "./" + rel
